@@ -465,6 +465,33 @@ func judge(sc *Scenario, ref CaseResult, st StateResult) (fs []finding, verdict 
 		switch {
 		case f.OpenErr != "" || f.BugsErr != "" || f.IdentsErr != "":
 			add("c06.redo", "unreadable-after-repeat", "after repeating the action: open %q bugs %q identities %q", f.OpenErr, f.BugsErr, f.IdentsErr)
+		case sc.Pull != "":
+			// the interrupted pull was repeated through the same entry point: everything the remote
+			// holds must now be local, with the content the uninterrupted pull gives it
+			pullCheck := func(kind string, got, post map[string][]string) {
+				var missing, stale []string
+				for id, want := range post {
+					l, ok := got[id]
+					if !ok {
+						missing = append(missing, id)
+					} else if !eqLists(l, want) {
+						stale = append(stale, id)
+					}
+				}
+				sort.Strings(missing)
+				sort.Strings(stale)
+				if len(missing) > 0 {
+					add("c06.redo", "remote-"+kind+"-still-missing", "%s was interrupted and repeated after the restart; the call succeeded but %d %s of the remote never became local: %v", sc.Pull, len(missing), kind, shortAll(missing))
+				}
+				if len(stale) > 0 {
+					add("c06.redo", "remote-"+kind+"-not-brought-up-to-date", "%s was interrupted and repeated after the restart; the call succeeded but %d local %s lack what the remote holds: %v", sc.Pull, len(stale), kind, shortAll(stale))
+				}
+			}
+			pullCheck("identity", f.Idents, ref.Post.Idents)
+			pullCheck("bug", f.Bugs, ref.Post.Bugs)
+			if len(f.Bugs) > len(ref.Post.Bugs) || len(f.Idents) > len(ref.Post.Idents) {
+				add("c06.redo", "repeat-does-not-reach-post-state", "after repeating %s there are entities the uninterrupted pull does not produce", sc.Pull)
+			}
 		case sc.Idempotent:
 			if !sameEntities(f, ref.Post) {
 				add("c06.redo", "repeat-does-not-reach-post-state", "after repeating the action the entities differ from the state after the uninterrupted action")
